@@ -12,6 +12,7 @@ use chess_verif_harness::*;
 use serde_json::{json, Map, Value};
 use std::hash::{Hash, Hasher};
 use std::io::Write;
+use std::convert::TryFrom;
 use std::str::FromStr;
 
 struct Rng(u64);
@@ -428,6 +429,592 @@ fn game_chunk(rng: &mut Rng, events: usize, out: &mut dyn Write, claims: bool) {
     }
 }
 
+// ------------------------------------------------------------------ MoveGen iterator scripts
+const ITER_FENS: [&str; 10] = [
+    "8/P1k5/K7/8/8/8/8/8 w - - 0 1",
+    "n1n5/PPPk4/8/8/8/8/4Kppp/5N1N b - - 0 1",
+    "n1n5/PPPk4/8/8/8/8/4Kppp/5N1N w - - 0 1",
+    "rnbqkb1r/pp1p1ppp/4pn2/2pP4/4P3/8/PPP2PPP/RNBQKBNR w KQkq c6 0 4",
+    "4k3/8/8/2KPp2r/8/8/8/8 w - e6 0 1",
+    "8/8/8/8/1kpPp2R/8/8/4K3 b - d3 0 1",
+    "r3k2r/Pppp1ppp/1b3nbN/nP6/BBP1P3/q4N2/Pp1P2PP/R2Q1RK1 w kq - 0 1",
+    "r3k2r/p1ppqpb1/bn2pnp1/3PN3/1p2P3/2N2Q1p/PPPBBPPP/R3K2R w KQkq - 0 1",
+    "4k3/8/8/3pPp2/8/8/8/4K3 w - d6 0 1",
+    "1n1n4/2P5/8/8/8/8/6k1/K7 w - - 0 1",
+];
+
+fn mask_json(bb: BitBoard) -> Value {
+    json!(bb_squares(bb))
+}
+
+fn log_len(g: &MoveGen, out: &mut dyn Write, n: &mut usize) {
+    let (lo, hi) = g.size_hint();
+    writeln!(out, "{}", json!({"event": "Len", "ret": g.len(), "lo": lo, "hi": hi.map(|x| x as i64).unwrap_or(-1)})).unwrap();
+    *n += 1;
+}
+
+fn random_mask(rng: &mut Rng, b: &Board) -> BitBoard {
+    match rng.below(7) {
+        0 => *b.color_combined(!b.side_to_move()),
+        1 => !*b.color_combined(!b.side_to_move()),
+        2 => BitBoard::new(rng.next()),
+        3 => BitBoard::new(rng.next() & rng.next() & rng.next()),
+        4 => BitBoard::from_square(Square::new((rng.next() & 63) as u8)),
+        5 => get_rank(Rank::from_index(rng.below(8))) | get_rank(Rank::from_index(rng.below(8))),
+        _ => EMPTY,
+    }
+}
+
+fn iter_script(rng: &mut Rng, b: &Board, out: &mut dyn Write, n: &mut usize) {
+    let all: Vec<ChessMove> = MoveGen::new_legal(b).collect();
+    let mut g = MoveGen::new_legal(b);
+    writeln!(out, "{}", json!({"event": "IterNew", "fen": format!("{}", b), "all": all.iter().map(|m| mv_json(*m)).collect::<Vec<_>>()})).unwrap();
+    *n += 1;
+    log_len(&g, out, n);
+    // removals, beforehand
+    let nrem = [0, 0, 1, 1, 2, 3][rng.below(6)];
+    for _ in 0..nrem {
+        if rng.chance(1, 3) {
+            let m = random_mask(rng, b);
+            g.remove_mask(m);
+            writeln!(out, "{}", json!({"event": "RemoveMask", "mask": mask_json(m)})).unwrap();
+        } else {
+            // prefer en-passant captures and promotions when there are any
+            let special: Vec<ChessMove> = all
+                .iter()
+                .cloned()
+                .filter(|m| m.get_promotion().is_some() || (b.piece_on(m.get_source()) == Some(Piece::Pawn) && m.get_source().get_file() != m.get_dest().get_file() && b.piece_on(m.get_dest()).is_none()))
+                .collect();
+            let m = if !special.is_empty() && rng.chance(1, 2) {
+                special[rng.below(special.len())]
+            } else if !all.is_empty() && rng.chance(5, 6) {
+                all[rng.below(all.len())]
+            } else {
+                let r = rng.next();
+                ChessMove::new(Square::new((r & 63) as u8), Square::new(((r >> 6) & 63) as u8), None)
+            };
+            let ret = g.remove_move(m);
+            writeln!(out, "{}", json!({"event": "RemoveMove", "m": mv_json(m), "ret": ret})).unwrap();
+        }
+        *n += 1;
+        log_len(&g, out, n);
+    }
+    // masks, each drawn to exhaustion; the last one is the full mask
+    let nmasks = rng.below(4);
+    for k in 0..=nmasks {
+        let m = if k == nmasks { !EMPTY } else { random_mask(rng, b) };
+        if !(k == 0 && nmasks == 0 && rng.chance(1, 2)) {
+            g.set_iterator_mask(m);
+            writeln!(out, "{}", json!({"event": "SetMask", "mask": mask_json(m)})).unwrap();
+            *n += 1;
+            log_len(&g, out, n);
+        }
+        loop {
+            let r = g.next();
+            match r {
+                Some(mv) => writeln!(out, "{}", json!({"event": "Next", "ret": mv_json(mv)})).unwrap(),
+                None => writeln!(out, "{}", json!({"event": "Next", "ret": []})).unwrap(),
+            }
+            *n += 1;
+            log_len(&g, out, n);
+            if r.is_none() {
+                break;
+            }
+        }
+    }
+}
+
+fn iter_chunk(rng: &mut Rng, events: usize, out: &mut dyn Write) {
+    let mut n = 0;
+    while n < events {
+        let text = if rng.chance(1, 3) { ITER_FENS[rng.below(ITER_FENS.len())] } else { START_FENS[rng.below(START_FENS.len())] };
+        let mut b = Board::from_str(text).expect("fen");
+        let plies = rng.below(60);
+        for _ in 0..plies {
+            let ms: Vec<ChessMove> = MoveGen::new_legal(&b).collect();
+            if ms.is_empty() {
+                break;
+            }
+            let hot: Vec<ChessMove> = ms.iter().cloned().filter(|m| interesting(&b, *m)).collect();
+            let m = if !hot.is_empty() && rng.chance(1, 2) { hot[rng.below(hot.len())] } else { ms[rng.below(ms.len())] };
+            b = b.make_move_new(m);
+            // script the positions that have something special to offer, and some of the others
+            let special = b.en_passant().is_some()
+                || (b.pieces(Piece::Pawn) & b.color_combined(b.side_to_move()) & get_rank(b.side_to_move().to_seventh_rank())) != EMPTY;
+            if (special && rng.chance(1, 2)) || rng.chance(1, 12) {
+                iter_script(rng, &b, out, &mut n);
+                if n >= events {
+                    return;
+                }
+            }
+        }
+        iter_script(rng, &b, out, &mut n);
+    }
+}
+
+// ------------------------------------------------------------------ text parsers (SAN, UCI)
+fn san_guess(rng: &mut Rng, b: &Board, m: ChessMove, all: &Vec<ChessMove>) -> String {
+    // a plausible SAN-like text for m with random (possibly wrong) decorations; TLC decides what it must parse to
+    let piece = b.piece_on(m.get_source()).unwrap();
+    let src = format!("{}", m.get_source());
+    let dst = format!("{}", m.get_dest());
+    let is_castle = piece == Piece::King && (m.get_source().get_file().to_index() as i32 - m.get_dest().get_file().to_index() as i32).abs() == 2;
+    let is_ep = piece == Piece::Pawn && m.get_source().get_file() != m.get_dest().get_file() && b.piece_on(m.get_dest()).is_none();
+    let capture = b.piece_on(m.get_dest()).is_some() || is_ep;
+    let nb = b.make_move_new(m);
+    let mut text = String::new();
+    if is_castle {
+        text.push_str(if m.get_dest().get_file() == File::G { "O-O" } else { "O-O-O" });
+    } else {
+        let letter = match piece { Piece::Pawn => "", Piece::Knight => "N", Piece::Bishop => "B", Piece::Rook => "R", Piece::Queen => "Q", Piece::King => "K" };
+        text.push_str(letter);
+        if piece == Piece::Pawn {
+            if capture || rng.chance(1, 20) {
+                text.push_str(&src[0..1]);
+            }
+        } else {
+            let rivals = all.iter().filter(|o| b.piece_on(o.get_source()) == Some(piece) && o.get_dest() == m.get_dest()).count();
+            match if rivals > 1 { rng.below(4) } else { [0, 0, 0, 1, 2, 3][rng.below(6)] } {
+                0 => {}
+                1 => text.push_str(&src[0..1]),
+                2 => text.push_str(&src[1..2]),
+                _ => text.push_str(&src),
+            }
+        }
+        if capture != rng.chance(1, 25) {
+            text.push('x');
+        }
+        text.push_str(&dst);
+        if let Some(p) = m.get_promotion() {
+            text.push_str(match p { Piece::Queen => "Q", Piece::Rook => "R", Piece::Bishop => "B", _ => "N" });
+        }
+    }
+    let in_check = *nb.checkers() != EMPTY;
+    let mate = in_check && MoveGen::new_legal(&nb).len() == 0;
+    if in_check && rng.chance(2, 3) {
+        text.push(if mate { '#' } else { '+' });
+    } else if rng.chance(1, 30) {
+        text.push(if rng.chance(1, 2) { '+' } else { '#' });
+    }
+    if (is_ep && rng.chance(1, 2)) || rng.chance(1, 40) {
+        text.push_str(" e.p.");
+    }
+    text
+}
+
+const NOISE: [&str; 24] = ["a", "h", "1", "8", "x", "N", "K", "Q", "O", "-", "+", "#", "=", " ", "e.p.", "0", "9", "i", "é", "♞", "\u{1F600}", "\u{0}", "ß", "."];
+
+fn mutate(rng: &mut Rng, s: &str) -> String {
+    let chars: Vec<char> = s.chars().collect();
+    let mut out: Vec<String> = chars.iter().map(|c| c.to_string()).collect();
+    match rng.below(4) {
+        0 if !out.is_empty() => {
+            out.remove(rng.below(out.len()));
+        }
+        1 => {
+            let i = rng.below(out.len() + 1);
+            out.insert(i, NOISE[rng.below(NOISE.len())].to_string());
+        }
+        2 if !out.is_empty() => {
+            let i = rng.below(out.len());
+            out[i] = NOISE[rng.below(NOISE.len())].to_string();
+        }
+        _ => {
+            let n = rng.below(out.len() + 1);
+            out.truncate(n);
+        }
+    }
+    out.concat()
+}
+
+fn random_text(rng: &mut Rng) -> String {
+    let n = rng.below(9);
+    (0..n).map(|_| NOISE[rng.below(NOISE.len())]).collect::<Vec<_>>().concat()
+}
+
+fn san_ret(b: &Board, text: &str) -> (&'static str, Value) {
+    match std::panic::catch_unwind(|| ChessMove::from_san(b, text)) {
+        Ok(Ok(m)) => ("ok", mv_json(m)),
+        Ok(Err(_)) => ("err", json!([])),
+        Err(_) => ("panic", json!([])),
+    }
+}
+
+fn text_chunk(rng: &mut Rng, events: usize, out: &mut dyn Write) {
+    let mut n = 0;
+    while n < events {
+        // ---- coordinate text ----
+        for _ in 0..40 {
+            let r = rng.next();
+            let base = format!("{}{}", Square::new((r & 63) as u8), Square::new(((r >> 6) & 63) as u8));
+            let promo = ["", "q", "r", "b", "n", "k", "Q", "=q", "x", "é"][rng.below(10)];
+            let mut text = format!("{}{}", base, promo);
+            if rng.chance(1, 3) {
+                text = mutate(rng, &text);
+            }
+            if rng.chance(1, 6) {
+                text = random_text(rng);
+            }
+            let (st, mv) = match std::panic::catch_unwind(|| ChessMove::from_str(&text)) {
+                Ok(Ok(m)) => ("ok", mv_json(m)),
+                Ok(Err(_)) => ("err", json!([])),
+                Err(_) => ("panic", json!([])),
+            };
+            writeln!(out, "{}", json!({"event": "UciMove", "text": text, "st": st, "mv": mv})).unwrap();
+            let stext = if rng.chance(1, 2) { text.chars().take(rng.below(4)).collect::<String>() } else { mutate(rng, &base[0..2]) };
+            let (sst, sqi) = match std::panic::catch_unwind(|| Square::from_str(&stext)) {
+                Ok(Ok(s)) => ("ok", s.to_index() as i64),
+                Ok(Err(_)) => ("err", -1),
+                Err(_) => ("panic", -1),
+            };
+            writeln!(out, "{}", json!({"event": "UciSquare", "text": stext, "st": sst, "sqi": sqi})).unwrap();
+            n += 2;
+        }
+        // ---- SAN against positions of a playout ----
+        let textfen = if rng.chance(1, 3) { ITER_FENS[rng.below(ITER_FENS.len())] } else { START_FENS[rng.below(START_FENS.len())] };
+        let mut b = Board::from_str(textfen).expect("fen");
+        let plies = 10 + rng.below(80);
+        for _ in 0..plies {
+            if n >= events {
+                return;
+            }
+            let ms: Vec<ChessMove> = MoveGen::new_legal(&b).collect();
+            if ms.is_empty() {
+                break;
+            }
+            let castle_or_ep = ms.iter().any(|m| {
+                let p = b.piece_on(m.get_source()).unwrap();
+                (p == Piece::King && (m.get_source().get_file().to_index() as i32 - m.get_dest().get_file().to_index() as i32).abs() == 2)
+                    || (p == Piece::Pawn && m.get_source().get_file() != m.get_dest().get_file() && b.piece_on(m.get_dest()).is_none())
+            });
+            if castle_or_ep || rng.chance(1, 6) {
+                let p = proj(&b);
+                writeln!(
+                    out,
+                    "{}",
+                    json!({"event": "SanPos", "fen": format!("{}", b), "sq": sq_string(&p.sq), "stm": (p.stm as char).to_string(), "cr": cr_list(p.cr),
+                           "ep_raw": b.en_passant().map(|s| s.to_index() as i64).unwrap_or(-1)})
+                )
+                .unwrap();
+                n += 1;
+                for m in ms.iter() {
+                    let k = 1 + rng.below(2);
+                    for _ in 0..k {
+                        let mut text = san_guess(rng, &b, *m, &ms);
+                        if rng.chance(1, 5) {
+                            text = mutate(rng, &text);
+                        }
+                        let (st, mv) = san_ret(&b, &text);
+                        writeln!(out, "{}", json!({"event": "San", "text": text, "st": st, "mv": mv})).unwrap();
+                        n += 1;
+                    }
+                }
+                for _ in 0..6 {
+                    let text = random_text(rng);
+                    let (st, mv) = san_ret(&b, &text);
+                    writeln!(out, "{}", json!({"event": "San", "text": text, "st": st, "mv": mv})).unwrap();
+                    n += 1;
+                }
+            }
+            let hot: Vec<ChessMove> = ms.iter().cloned().filter(|m| interesting(&b, *m)).collect();
+            let m = if !hot.is_empty() && rng.chance(1, 2) { hot[rng.below(hot.len())] } else { ms[rng.below(ms.len())] };
+            b = b.make_move_new(m);
+        }
+    }
+}
+
+// ------------------------------------------------------------------ construction / validation (C07)
+fn exercise(b: &Board) -> String {
+    // everything a user may do with an accepted position
+    let r = std::panic::catch_unwind(|| {
+        let ms: Vec<ChessMove> = MoveGen::new_legal(b).collect();
+        let _ = MoveGen::new_legal(b).len();
+        let _ = b.status();
+        let _ = format!("{}", b);
+        let _ = b.is_sane();
+        let _ = b.get_hash();
+        let _ = b.null_move();
+        let mut tmp = *b;
+        for m in ms.iter() {
+            let n = b.make_move_new(*m);
+            b.make_move(*m, &mut tmp);
+            let _ = n.status();
+            let _ = format!("{}", n);
+            let _ = b.legal(*m);
+            let _ = MoveGen::legal_quick(b, *m);
+        }
+        let mut g = MoveGen::new_legal(b);
+        g.set_iterator_mask(*b.color_combined(!b.side_to_move()));
+        for _ in &mut g {}
+        g.set_iterator_mask(!EMPTY);
+        for _ in &mut g {}
+        for i in 0..64u8 {
+            let _ = b.legal(ChessMove::new(Square::new(i), Square::new(63 - i), None));
+        }
+        ms.len()
+    });
+    match r {
+        Ok(_) => "safe".to_string(),
+        Err(_) => "panic".to_string(),
+    }
+}
+
+fn builder_of(sq: &[u8; 64], stm: u8, cr: u8, epfile: i64) -> BoardBuilder {
+    let mut bb = BoardBuilder::new();
+    for i in 0..64u8 {
+        if let Some((pc, c)) = letter_piece(sq[i as usize]) {
+            bb.piece(Square::new(i), pc, c);
+        }
+    }
+    bb.side_to_move(if stm == b'w' { Color::White } else { Color::Black });
+    bb.castle_rights(Color::White, castle_rights_of(cr, Color::White));
+    bb.castle_rights(Color::Black, castle_rights_of(cr, Color::Black));
+    if epfile >= 0 {
+        bb.en_passant(Some(File::from_index(epfile as usize)));
+    }
+    bb
+}
+
+fn log_outcome(ev: &mut Map<String, Value>, r: std::thread::Result<Result<Board, Error>>, progress: &str, input: &Value) {
+    match r {
+        Err(_) => {
+            ev.insert("ret".into(), json!("panic"));
+        }
+        Ok(Err(_)) => {
+            ev.insert("ret".into(), json!("err"));
+        }
+        Ok(Ok(b)) => {
+            ev.insert("ret".into(), json!("ok"));
+            let p = proj(&b);
+            ev.insert("sq".into(), json!(sq_string(&p.sq)));
+            ev.insert("stm".into(), json!((p.stm as char).to_string()));
+            ev.insert("cr".into(), json!(cr_list(p.cr)));
+            ev.insert("ep_raw".into(), json!(b.en_passant().map(|s| s.to_index() as i64).unwrap_or(-1)));
+            // an abort (non-unwinding panic of a debug-build UB check) kills the process: leave a marker first
+            std::fs::write(progress, format!("{}", input)).ok();
+            ev.insert("exercise".into(), json!(exercise(&b)));
+            std::fs::remove_file(progress).ok();
+        }
+    }
+}
+
+fn fen_of(sq: &[u8; 64], stm: u8, cr: u8, epfile: i64, rng: &mut Rng) -> String {
+    let p = Pos { sq: *sq, stm, cr, ep: if epfile < 0 { -1 } else { (if stm == b'w' { 40 } else { 16 }) + epfile as i8 } };
+    format!("{} {} {}", p.describe(), rng.below(60), 1 + rng.below(90))
+}
+
+const FEN_NOISE: [&str; 22] = ["/", "8", "1", "9", "0", "k", "K", "p", "P", "q", " ", "w", "b", "-", "KQkq", "e3", "x", "é", "♚", "\u{1F600}", "\t", "//"];
+
+fn validate_chunk(rng: &mut Rng, events: usize, out: &mut dyn Write, progress: &str) {
+    let mut n = 0;
+    let letters = b"PNBRQKpnbrqk";
+    while n < events {
+        // a base position from a playout
+        let text = START_FENS[rng.below(START_FENS.len())];
+        let mut b = Board::from_str(text).expect("fen");
+        for _ in 0..rng.below(80) {
+            let ms: Vec<ChessMove> = MoveGen::new_legal(&b).collect();
+            if ms.is_empty() {
+                break;
+            }
+            let hot: Vec<ChessMove> = ms.iter().cloned().filter(|m| interesting(&b, *m)).collect();
+            b = b.make_move_new(if !hot.is_empty() && rng.chance(1, 2) { hot[rng.below(hot.len())] } else { ms[rng.below(ms.len())] });
+        }
+        let base = proj(&b);
+        for _ in 0..12 {
+            if n >= events {
+                return;
+            }
+            let mut sq = base.sq;
+            let mut stm = base.stm;
+            let mut cr = base.cr;
+            let mut epfile: i64 = if base.ep >= 0 { (base.ep & 7) as i64 } else { -1 };
+            // mutations (several may apply); about one in four inputs stays a valid position
+            let nm = [0, 0, 1, 1, 1, 2, 3, 5][rng.below(8)];
+            for _ in 0..nm {
+                match rng.below(12) {
+                    0 => {
+                        for i in 0..64 {
+                            if sq[i] == b'K' || (sq[i] == b'k' && rng.chance(1, 2)) {
+                                sq[i] = b'.';
+                                break;
+                            }
+                        }
+                    }
+                    1 => sq[rng.below(64)] = if rng.chance(1, 2) { b'K' } else { b'k' },
+                    2 => stm = if stm == b'w' { b'b' } else { b'w' },
+                    3 => cr |= 1 << rng.below(4),
+                    4 => cr = (rng.next() & 15) as u8,
+                    5 => epfile = rng.below(9) as i64 - 1,
+                    6 => sq[if rng.chance(1, 2) { rng.below(8) } else { 56 + rng.below(8) }] = if rng.chance(1, 2) { b'P' } else { b'p' },
+                    7 => {
+                        // crowd the board: far more men than a chess set has
+                        let k = 4 + rng.below(50);
+                        for _ in 0..k {
+                            let i = rng.below(64);
+                            if sq[i] == b'.' {
+                                let l = letters[rng.below(12)];
+                                if l != b'K' && l != b'k' {
+                                    sq[i] = l;
+                                }
+                            }
+                        }
+                    }
+                    8 => sq[rng.below(64)] = b'.',
+                    9 => {
+                        let i = rng.below(64);
+                        if sq[i] != b'K' && sq[i] != b'k' {
+                            sq[i] = letters[rng.below(12)];
+                        }
+                    }
+                    10 => {
+                        // one colour only gets many queens / knights
+                        let l = [b'Q', b'N', b'q', b'n', b'R', b'b'][rng.below(6)];
+                        for _ in 0..(10 + rng.below(30)) {
+                            let i = rng.below(64);
+                            if sq[i] == b'.' {
+                                sq[i] = l;
+                            }
+                        }
+                    }
+                    _ => {
+                        sq = [b'.'; 64];
+                        for _ in 0..rng.below(20) {
+                            sq[rng.below(64)] = letters[rng.below(12)];
+                        }
+                    }
+                }
+            }
+            let input = json!({"in_sq": sq_string(&sq), "in_stm": (stm as char).to_string(), "in_cr": cr_list(cr), "in_epfile": epfile});
+            if rng.chance(1, 2) {
+                // through the builder
+                let mut ev = input.as_object().unwrap().clone();
+                ev.insert("event".into(), json!("Build"));
+                let bb = builder_of(&sq, stm, cr, epfile);
+                let r = std::panic::catch_unwind(|| Board::try_from(&bb));
+                log_outcome(&mut ev, r, progress, &input);
+                writeln!(out, "{}", Value::Object(ev)).unwrap();
+            } else {
+                // through text
+                let mut text = fen_of(&sq, stm, cr, epfile, rng);
+                let mut wellformed = true;
+                let roll = rng.below(10);
+                if roll < 3 {
+                    wellformed = false;
+                    for _ in 0..(1 + rng.below(3)) {
+                        let mut chars: Vec<String> = text.chars().map(|c| c.to_string()).collect();
+                        match rng.below(4) {
+                            0 if !chars.is_empty() => {
+                                chars.remove(rng.below(chars.len()));
+                            }
+                            1 => {
+                                let i = rng.below(chars.len() + 1);
+                                chars.insert(i, FEN_NOISE[rng.below(FEN_NOISE.len())].to_string());
+                            }
+                            2 if !chars.is_empty() => {
+                                let i = rng.below(chars.len());
+                                chars[i] = FEN_NOISE[rng.below(FEN_NOISE.len())].to_string();
+                            }
+                            _ => {
+                                let k = rng.below(chars.len() + 1);
+                                chars.truncate(k);
+                            }
+                        }
+                        text = chars.concat();
+                    }
+                } else if roll == 3 {
+                    wellformed = false;
+                    text = (0..rng.below(40)).map(|_| FEN_NOISE[rng.below(FEN_NOISE.len())]).collect::<Vec<_>>().concat();
+                }
+                let mut ev = input.as_object().unwrap().clone();
+                ev.insert("event".into(), json!("Parse"));
+                ev.insert("text".into(), json!(text));
+                ev.insert("wellformed".into(), json!(wellformed));
+                let t2 = text.clone();
+                let r = std::panic::catch_unwind(move || Board::from_str(&t2));
+                log_outcome(&mut ev, r, progress, &json!({"text": text}));
+                writeln!(out, "{}", Value::Object(ev)).unwrap();
+            }
+            n += 1;
+        }
+    }
+}
+
+// ------------------------------------------------------------------ CacheTable scripts (C19)
+fn cache_chunk(rng: &mut Rng, events: usize, out: &mut dyn Write, progress: &str) {
+    let mut n = 0;
+    while n < events {
+        // construction: valid and invalid sizes
+        let size: usize = match rng.below(10) {
+            0 => rng.below(4097),
+            1 => (rng.next() % 2_000_000) as usize,
+            2 => 0,
+            3 => 3 << rng.below(12),
+            _ => {
+                let top = if rng.chance(1, 8) { 21 } else { 9 };
+                1usize << rng.below(top)
+            }
+        };
+        let def = rng.below(5) as i64;
+        let made = std::panic::catch_unwind(|| CacheTable::<i64>::new(size, def));
+        writeln!(out, "{}", json!({"op": "new", "n": size, "def": def, "panicked": made.is_err()})).unwrap();
+        n += 1;
+        let mut t = match made {
+            Ok(t) => t,
+            Err(_) => continue,
+        };
+        let shift = (size as u64).trailing_zeros();
+        // a small pool of hashes, so that slots collide under different tags; includes hash 0 and all-ones
+        let mut pool: Vec<u64> = vec![0, u64::MAX, 1, size as u64, (size as u64).wrapping_sub(1)];
+        for _ in 0..(4 + rng.below(12)) {
+            let idx = rng.next() & (size as u64 - 1);
+            for _ in 0..(1 + rng.below(3)) {
+                let tag = match rng.below(4) { 0 => 0, 1 => rng.next() & 3, _ => rng.next() };
+                pool.push(if shift >= 64 { idx } else { (tag.wrapping_shl(shift)) | idx });
+            }
+        }
+        let ops = 50 + rng.below(400);
+        for _ in 0..ops {
+            if n >= events {
+                return;
+            }
+            let h = if rng.chance(9, 10) { pool[rng.below(pool.len())] } else { rng.next() };
+            let idx = h & (size as u64 - 1);
+            let tag = if shift == 0 { h } else { h >> shift };
+            let v = rng.below(7) as i64;
+            std::fs::write(progress, format!("size={} hash={}", size, h)).ok();
+            match rng.below(3) {
+                0 => {
+                    t.add(h, v);
+                    writeln!(out, "{}", json!({"op": "add", "tag": tag.to_string(), "idx": idx, "v": v})).unwrap();
+                }
+                1 => {
+                    let x = rng.below(7) as i64;
+                    let (pk, px) = [("always", 0), ("never", 0), ("eq", x), ("lt", x), ("ge", x)][rng.below(5)];
+                    let seen = std::cell::Cell::new(-1i64);
+                    t.replace_if(h, v, |c| {
+                        seen.set(c);
+                        match pk {
+                            "always" => true,
+                            "never" => false,
+                            "eq" => c == px,
+                            "lt" => c < px,
+                            _ => c >= px,
+                        }
+                    });
+                    writeln!(out, "{}", json!({"op": "replace_if", "tag": tag.to_string(), "idx": idx, "v": v, "pk": pk, "px": px, "called_with": seen.get()})).unwrap();
+                }
+                _ => {
+                    let g = t.get(h);
+                    writeln!(out, "{}", json!({"op": "get", "tag": tag.to_string(), "idx": idx, "some": g.is_some(), "v": g.unwrap_or(-1)})).unwrap();
+                }
+            }
+            std::fs::remove_file(progress).ok();
+            n += 1;
+        }
+    }
+}
+
 fn main() {
     let args: Vec<String> = std::env::args().collect();
     if args.len() < 2 {
@@ -473,6 +1060,16 @@ fn main() {
         let mut f = std::io::BufWriter::new(std::fs::File::create(&path).unwrap());
         match mode.as_str() {
             "board" => board_chunk(&mut rng, events, &mut f),
+            "iter" => iter_chunk(&mut rng, events, &mut f),
+            "text" => text_chunk(&mut rng, events, &mut f),
+            "cache" => {
+                let progress = format!("{}/{}-{}.progress", outdir, mode, c);
+                cache_chunk(&mut rng, events, &mut f, &progress);
+            }
+            "validate" => {
+                let progress = format!("{}/{}-{}.progress", outdir, mode, c);
+                validate_chunk(&mut rng, events, &mut f, &progress);
+            }
             "game" => game_chunk(&mut rng, events, &mut f, false),
             "claims" => game_chunk(&mut rng, events, &mut f, true),
             x => {
